@@ -1,5 +1,6 @@
 import AFDriver.Wire
 import AFModel.Persist
+import AFModel.DictForm
 
 open Lean (Json)
 open AF AF.Wire
@@ -11,7 +12,13 @@ def handleC08 (j : Json) : Except String Json := do
   let t := parsed.node
   let base := (getNat j "base").toOption.getD 1000000
   let keep := (getBool j "keep_ids").toOption.getD false
-  let r := if keep then reloadKeepingIds t else reloadDict t base
+  -- dictionary form: the modelled writer and reader; database rows rebuild arithmetic priors through
+  -- their constructor too (operand names left_/right_) but keep ids; pickle keeps everything
+  let route := (getStr j "route").toOption.getD (if keep then "pickle" else "dict")
+  let r := match route with
+    | "dict" => dictRoundTrip t base
+    | "database" => canonNamesDb t
+    | _ => reloadKeepingIds t
   let pp := pathPriors r
   -- ranks of the new ids (the real ids differ by an offset)
   let ids := uniqueIds r
